@@ -26,6 +26,8 @@ type G struct {
 	daemon  bool
 	entry   string
 	preempt int
+	yielding bool
+	exited   chan struct{}
 }
 
 type abortG struct{}
@@ -53,8 +55,10 @@ type Sched struct {
 	timers   []*timer
 	now      int64 // virtual nanoseconds since start (concrete)
 	timerSeq int
+	abortCh  chan struct{}
 	noTimers bool // timers never fire (harness option)
 	switches int
+	yieldOnly  bool
 	maxPreempt int
 	preempts   int
 }
@@ -86,7 +90,7 @@ type ChanV struct {
 }
 
 func (e *Exec) newSched() *Sched {
-	s := &Sched{}
+	s := &Sched{abortCh: make(chan struct{})}
 	g := &G{id: 0, resume: make(chan bool), isMain: true, started: true, entry: "main"}
 	s.gs = []*G{g}
 	s.cur = g
@@ -95,10 +99,16 @@ func (e *Exec) newSched() *Sched {
 
 func (e *Exec) spawn(fr *frame, pos token.Pos, fn Value, args []Value) {
 	s := e.sched
-	if len(s.gs) >= 16 {
-		panic(pathEnd{"truncated", "more than 16 goroutines"})
+	alive := 0
+	for _, g := range s.gs {
+		if !g.done {
+			alive++
+		}
 	}
-	g := &G{id: len(s.gs), resume: make(chan bool)}
+	if alive >= 24 || len(s.gs) >= 512 {
+		panic(pathEnd{"truncated", fmt.Sprintf("goroutine bound exceeded (%d alive, %d spawned)", alive, len(s.gs))})
+	}
+	g := &G{id: len(s.gs), resume: make(chan bool), exited: make(chan struct{})}
 	if c, ok := fn.(*Closure); ok && c != nil {
 		g.entry = c.fn.String()
 	}
@@ -106,6 +116,7 @@ func (e *Exec) spawn(fr *frame, pos token.Pos, fn Value, args []Value) {
 	s.wg.Add(1)
 	go func() {
 		defer s.wg.Done()
+		defer close(g.exited)
 		if !<-g.resume {
 			return
 		}
@@ -136,8 +147,11 @@ func (e *Exec) spawn(fr *frame, pos token.Pos, fn Value, args []Value) {
 				}
 			}
 			// hand the baton to main, which raises the fatal condition
-			s.cur = s.gs[0]
-			s.gs[0].resume <- true
+			// (unless the path is already being torn down)
+			select {
+			case s.gs[0].resume <- true:
+			case <-s.abortCh:
+			}
 		}()
 		s.cur = g
 		e.call(nil, pos, fn, args)
@@ -172,7 +186,22 @@ func (e *Exec) reschedule(self *G) {
 			}
 			panic(pathEnd{"deadlock", desc})
 		}
-		pick := runnable[e.chooseN(len(runnable), "schedule")]
+		var pick *G
+		if s.yieldOnly && !self.yielding {
+			// run-to-block policy: deterministic choice (lowest id, the
+			// blocked/ended goroutine's successors in creation order);
+			// nondeterministic choices happen only at rt.Yield() points
+			pick = runnable[0]
+			if pick != self {
+				for _, g := range runnable {
+					if g.id < pick.id {
+						pick = g
+					}
+				}
+			}
+		} else {
+			pick = runnable[e.chooseN(len(runnable), "schedule")]
+		}
 		if pick == self {
 			self.ready = nil
 			self.what = ""
@@ -212,16 +241,20 @@ func (e *Exec) block(g *G, what string, pred func() bool) {
 
 // yield is a voluntary scheduling point (all runnable goroutines may go next).
 func (e *Exec) yield(g *G) {
+	g.yielding = true
+	defer func() { g.yielding = false }()
 	e.reschedule(g)
 }
 
 // killAll aborts all parked goroutines at the end of a path.
 func (e *Exec) killAll() {
 	s := e.sched
+	close(s.abortCh)
 	for _, g := range s.gs[1:] {
-		if !g.done {
-			g.done = true
-			g.resume <- false
+		g.done = true
+		select {
+		case g.resume <- false:
+		case <-g.exited:
 		}
 	}
 	s.wg.Wait()
@@ -361,6 +394,9 @@ func (e *Exec) doSelect(fr *frame, instr ssa.Instruction, cases []selCase, hasDe
 		if c.ch != nil && c.ch.closed {
 			closedIdx = append(closedIdx, i)
 		}
+	}
+	if len(closedIdx) == 0 {
+		panic(engineError{fmt.Sprintf("select woke up without a ready case: g%d %s aborting=%v", g.id, what, g.done)})
 	}
 	i := closedIdx[e.chooseN(len(closedIdx), "select-closed")]
 	if cases[i].send {
